@@ -527,6 +527,21 @@ def _check_avx(F, R):
                     R.ok(None, nontrivial=True)
             else:
                 nlit += 1
+                # the planned base (times its radixes) must divide the length: where the enclosing match
+                # arms pin a prime power of the length exactly, the base may not contain more of it
+                pins = _pinned_powers(F, base, bj)
+                rprod = 1
+                for r_ in (rad or []):
+                    rprod *= r_
+                for v in vals:
+                    for q, k in sorted(pins.items()):
+                        have = _valuation(v * rprod, q)
+                        if have > k:
+                            R.violation("table:avx:base-divides:%s:%d:%d^%d" % (label, v, q, k), base.where(t),
+                                        "%s plans base %d x radixes %s in the arm where the length has exactly %d^%d: the base does not divide the length (divide_by() panics 'Invalid base')"
+                                        % (base.name, v, rad, q, k))
+                        else:
+                            R.ok({"planner": label, "base": v, "radixes": rad, "arm": "%d^%d exactly" % (q, k), "v%d(base)" % q: have}, nontrivial=True, sample_cap=6)
                 for v in vals:
                     if v not in good:
                         R.violation("table:avx:base:%s:%d" % (label, v), base.where(t), "%s plans a butterfly of length %d for which %s has no arm" % (base.name, v, cb.name))
@@ -591,6 +606,41 @@ def _check_avx(F, R):
         else:
             R.ok({"radix_producer": src, "values": sorted(vals), "construct_plan_arms": sorted(radix_arms)}, nontrivial=True)
     R.metric("avx_radix_producers", len(produced))
+
+
+def _valuation(n, q):
+    k = 0
+    while n and n % q == 0:
+        n //= q
+        k += 1
+    return k
+
+
+def _pinned_powers(F, b, bi):
+    """{prime: exponent} for every dominating `match factors.get_power<q>() { K => ...` arm that
+    contains block bi (exact pins only; comparisons and `% m` discriminants give no upper bound)."""
+    pins = {}
+    dom = b.dominators().get(bi, set())
+    for d in dom:
+        t = b.blocks[d]["t"]
+        if t["k"] != "switch":
+            continue
+        r = b.root(t["o"])
+        if r[0] != "call":
+            continue
+        c = F.callee_of(r[2])
+        if not c or "PartialFactors::get_power" not in c["p"]:
+            continue
+        qs = c["p"].rsplit("get_power", 1)[1]
+        if not qs.isdigit():
+            continue
+        q = int(qs)
+        for val, tgt in t["cases"]:
+            if tgt in dom or tgt == bi:
+                # the arm must be exclusive to this value
+                if sum(1 for v2, t2 in t["cases"] if t2 == tgt) == 1 and tgt != t["otherwise"]:
+                    pins[q] = val
+    return pins
 
 
 def _guarded_by_is_butterfly(F, b, bi, operand):
@@ -907,4 +957,114 @@ def r_dftbound(F, cfg):
                 R.ok({"site": b.name, "Dft::new length": "<= %d" % ub, "by": how}, nontrivial=True)
     R.metric("dft_new_sites", n)
     R.metric("recipe_dft_enums", len(enum_payload))
+    return R
+
+
+# --------------------------------------------------------------------------- R-REPLAN
+def r_replan(F, cfg):
+    """AVX planner `replan_with_cache`: splicing a cached stage into a radix chain preserves the
+    planned length. Decided for the recognised idioms only: the cached length recorded for chain
+    position i is the running product INCLUDING radix i (the multiplication dominates the record in
+    the same iteration), so the radixes dropped must be 0..=i; the new base is that recorded length.
+    An unrecognised way of dropping the prefix is reported as not decided (no alarm)."""
+    R = Result("R-REPLAN", "replan_with_cache: the cached stage replaces exactly the chain prefix whose product it is")
+    if "avx" not in set(cfg.get("features", [])):
+        R.instances += 1
+        R.note("avx not compiled in")
+        return R
+    bs = F.methods("avx::avx_planner::AvxPlannerInternal", "replan_with_cache")
+    if len(bs) != 1:
+        R.violation("replan:anchor", "src/avx/avx_planner.rs", "replan_with_cache not found")
+        return R
+    b = bs[0]
+    dom = b.dominators()
+    # 1. the record CacheLocation::Radix(len, idx)
+    recs = [(bi, si, n) for bi, si, n in b.iter_nodes()
+            if n["k"] == "=" and n["r"]["k"] == "agg" and n["r"].get("ak") == "adt" and n["r"]["adt"].endswith("CacheLocation") and len(n["r"]["ops"]) == 2]
+    if len(recs) != 1:
+        R.note("record of the cached chain position not recognised (%d candidates): not decided" % len(recs))
+        R.undecided.append({"function": b.name, "status": "NOT DECIDED: cache-location record idiom not recognised"})
+        R.instances += 1
+        return R
+    rbi, rsi, rec = recs[0]
+    variant = rec["r"]["variant"]
+    ops = rec["r"]["ops"]
+    # index operand: payload .0 of enumerate().next()
+    ie = b.expr(ops[1])
+    idx_ok = ie[0] == "field" and ie[1][0] == "call" and ie[1][1].endswith("Iterator::next") and ie[2][-2:] == (("f", 0), ("f", 0))
+    # length operand: loop-carried local multiplied by the radix in this iteration, before the record
+    lr = b.root(ops[0])
+    inclusive = None
+    if lr[0] == "multi":
+        loc = lr[1]
+        for (dbi, dsi, dn) in b.whole_defs(loc):
+            if dsi == "t":
+                continue
+            rv = dn["r"]
+            if rv["k"] == "bin" and rv["op"] in ("Mul", "MulUnchecked", "MulWithOverflow"):
+                a = b.root(rv["a"])
+                if a == ("multi", loc) or ("p" in rv["a"] and rv["a"]["p"] == [loc]):
+                    # does this multiplication dominate the record (same iteration)?
+                    if dbi in dom.get(rbi, set()) and (dbi != rbi or (isinstance(dsi, int) and dsi < rsi)):
+                        inclusive = True
+                    else:
+                        inclusive = False
+    if not idx_ok or inclusive is None:
+        R.undecided.append({"function": b.name, "status": "NOT DECIDED: running-product idiom not recognised"})
+        R.instances += 1
+        return R
+    R.ok({"record": "CacheLocation variant %d = (running product %s radix[i], i)" % (variant, "including" if inclusive else "excluding")}, nontrivial=True)
+    # 2. the arm consuming that variant: what is dropped from the chain, what becomes the base
+    decided = False
+    for bi, t in b.calls():
+        c = F.callee_of(t)
+        if not c:
+            continue
+        p = c["p"]
+        if p.endswith("Vec::<T, A>::drain") or p.endswith("::drain"):
+            rg = b.expr(t["args"][1])
+            drop_incl = None
+
+            def is_idx(e):
+                e2 = e
+                while e2[0] == "cast":
+                    e2 = e2[3]
+                return e2[0] == "field" and any(x == ("dc", variant) for x in e2[2]) and e2[2][-1] == ("f", 1)
+            if rg[0] == "call" and rg[1].endswith("RangeInclusive::<Idx>::new") and len(rg[2]) == 2 and rg[2][0][:2] == ("const", 0) and is_idx(rg[2][1]):
+                drop_incl = True
+            elif rg[0] == "agg" and rg[1].startswith("std::ops::RangeToInclusive") and is_idx(rg[2][0]):
+                drop_incl = True
+            elif rg[0] == "agg" and rg[1].startswith("std::ops::RangeTo") and len(rg[2]) == 1:
+                x = rg[2][0]
+                if is_idx(x):
+                    drop_incl = False
+                elif x[0] == "bin" and x[1].startswith("Add") and is_idx(x[2]) and x[3][:2] == ("const", 1):
+                    drop_incl = True
+            elif rg[0] == "agg" and rg[1].startswith("std::ops::Range") and len(rg[2]) == 2 and rg[2][0][:2] == ("const", 0):
+                x = rg[2][1]
+                if is_idx(x):
+                    drop_incl = False
+                elif x[0] == "bin" and x[1].startswith("Add") and is_idx(x[2]) and x[3][:2] == ("const", 1):
+                    drop_incl = True
+            if drop_incl is None:
+                continue
+            decided = True
+            if drop_incl != inclusive:
+                R.violation("replan:prefix", b.where(t),
+                            "%s: the cached length is the product of the chain %s position i, but the radixes dropped are 0..%si: the spliced plan's length is off by a factor radix[i]"
+                            % (b.name, "up to and including" if inclusive else "before", "=" if drop_incl else ""))
+            else:
+                R.ok({"dropped": "0..%si" % ("=" if drop_incl else ""), "matches_record": True}, nontrivial=True)
+    if not decided:
+        R.undecided.append({"function": b.name, "status": "NOT DECIDED: the way the chain prefix is dropped is not a recognised idiom (drain(0..=i), drain(..=i), drain(0..i+1))"})
+        R.instances += 1
+    # 3. the new base is the recorded length
+    for bi, si, n in b.iter_nodes():
+        if n["k"] == "=" and n["r"]["k"] == "agg" and n["r"].get("vname") == "CacheBase":
+            e = b.expr(n["r"]["ops"][0])
+            if e[0] == "field" and any(x == ("dc", variant) for x in e[2]):
+                if e[2][-1] == ("f", 0):
+                    R.ok({"new_base": "recorded cached length"}, nontrivial=True)
+                else:
+                    R.violation("replan:base", b.where(n), "%s: the spliced plan's base is not the recorded cached length" % b.name)
     return R
